@@ -299,6 +299,11 @@ def build_corpus(seed: int, n_templates: int, max_bytes: int) -> List[Dict[str, 
     docs.insert(len([d for d in docs if d[0].startswith("repo:")]), ("tmpl-tour", TOUR))
     docs.append(("tour-dup-in-group", TOUR.replace("  s1.things\n  other\n", "  s1.things\n  other\n  T\n")))
     docs.append(("indented-first-line-tabs", "   // cata\tlogue of\tthings\nTable t {\n  id int [note: 'x\ty']\n}\n"))
+    # moderately nested type arguments: a valid document, and the same cut off inside the innermost parenthesis
+    nested5 = "Table n5 {\n  id int\n  x numeric(round(abs(least(greatest(scale(2))))))\n  y decimal(f(g(1)))\n}\n"
+    docs.append(("tmpl-nested-5", nested5))
+    docs.append(("nested-5-cut", nested5[:nested5.index("scale(2") + 7]))
+    docs.append(("nested-8-cut", "Table n8 {\n  x numeric(a(b(c(d(e(f(g(h(2"))
     docs.append(("tabs-first-line", "// customers\t(master\tdata)\nTable \"cu\tst\" {\n\tid int [note: 'a\tb']\n\tn varchar\n}\n"))
     docs.append(("m2m-twice", "Table authors {\n  id int [pk]\n  alt_id int\n}\n\nTable books {\n  id int [pk]\n  alt_id int\n}\n\n"
                  "Ref: authors.id <> books.id\n\nRef: authors.alt_id <> books.alt_id\n\nRef: books.id <> authors.alt_id\n"))
